@@ -199,7 +199,7 @@ func c12Scalar(r *Rand, k TK) reflect.Value {
 	case k == KCelsius:
 		v.SetInt(int64(r.Intn(65536)) - 32768)
 	case k == KLevel:
-		v.SetInt(int64(int32(r.Uint64() >> uint(32+r.Intn(30)))) * int64(1-2*r.Intn(2)))
+		v.SetInt(int64(int32(r.Uint64()>>uint(32+r.Intn(30)))) * int64(1-2*r.Intn(2)))
 	case k == KPoint:
 		v.Set(reflect.ValueOf(Point{x: r.Intn(2000) - 1000, y: r.Intn(2000) - 1000}))
 	}
